@@ -1659,7 +1659,7 @@ class JsonDocSuite(Suite):
                     cases.append(Case("jsondoc %d 10 %d %s %s" % (cb, pre, f, hx(t)), text=t, fail=f))
         maxlen = 2 ** (8 * self.cfg.get("STRING_LENGTH_SIZE", 2)) - 1
         # one string used by more values than a narrow reference counter can count, then one user replaced (a repeated key)
-        for N in ((255, 256, 257, 300) if maxlen == 255 or self.cfg.get("SLOT_ID_SIZE", 4) == 1 else ((65535, 65536, 65537) if tier == "thorough" else ())):
+        for N in ((255, 256, 257, 300) if maxlen == 255 or self.cfg.get("SLOT_ID_SIZE", 4) == 1 else ((65535, 65536, 65537) if tier == "thorough" and self.cfg.get("POOL_CAPACITY", 256) >= 64 else ())):      # with 2- or 3-slot pools these need tens of thousands of pools: minutes in the model
             t = b'{"palette":[' + b",".join([b'{"rgb":0}'] * N) + b'],"mode":"rgb","mode":"hsv","gamma":2.5}'
             cases.append(Case("jsondoc %d 10 0 - %s" % (cb, hx(t)), text=t, fail="-"))
             t = b'["rgb",' + b",".join([b'"rgb"'] * N) + b',{"a":"rgb","a":1}]'
